@@ -47,8 +47,6 @@ def check_splitter(R, kind, n, fh, w, step=1, iw=None, sww=True, series=True, ta
         R.check("no-unrelated-error", False, f"{desc}: {type(e).__name__}: {e}")
         return
     fits = (w is None or w + fmax <= n) and (iw is None or (iw + fmax <= n and sww and iw > w)) and fmax < n
-    if kind == "single" and not fits:
-        return        # oversize single window: C20
     R.check("rejects-window-that-does-not-fit", fits, f"{desc}: accepted although a window does not fit ({len(splits)} splits)")
     if not fits:
         return
